@@ -12,7 +12,7 @@ PROPERTY = "C17"
 LEVEL = "exploration"
 BUDGET = {"quick": 420, "thorough": 30000}
 CHUNK = 2
-RUN_TIMEOUT_S = 300
+RUN_TIMEOUT_S = 1500
 MAX_DISCARD_FRACTION = 0.6
 RULE = (
     "seeded sessions: random open/closed chains of 1..4 rigid bodies / point masses with all joint types, moving frames, "
